@@ -5,7 +5,7 @@ from pcv import core, capio, textgen
 
 P = "PcVerif.Props.C14."
 THEOREMS = [P + t for t in ["dfxp_lang_fallback", "dfxp_default_lang_pinned", "dfxp_languages_first_appearance", "primary_syncs_sorted",
-                              "sami_lang_test_pinned", "stylesheet_declares_every_language", "stylesheet_old_test_counterexample",
+                              "sami_lang_test_pinned", "stylesheet_declares_every_language", "stylesheet_declares_label_class", "stylesheet_old_test_counterexample",
                               "plan_sorted", "paragraphs_in_own_block"]]
 CODES = ["en-US", "fr-FR", "de", "es-419", "en", "pt-BR", "fi", "fil", "es", "est"]   # also codes that are plain string prefixes of another (fi / fil)
 
@@ -60,7 +60,8 @@ def explore(chk):
             abstract[first] = []          # an empty first (primary) language
         times = [[(s, e) for (s, e, _) in caps] for caps in abstract.values()]
         op = b.add("sami.plan", "|".join(core.enc_list(t, lambda ab: capio.fr(ab[0]) + ";" + capio.fr(ab[1])) for t in times))
-        op2 = b.add("sami.stylesheet", core.enc_list(list(abstract.keys())))
+        # no styles, no classes: every language labels its paragraphs with its own code; the set's own styles give "<!--"
+        op2 = b.add("sami.stylesheet", core.enc_list(list(abstract.keys())), ",".join("1" for _ in abstract), core.enc("<!--"))
         jobs.append((abstract, op, op2))
     out = b.run() if chk.driver_ok else None
     shared_w = {"dfxp": pycaption.DFXPWriter(), "sami": pycaption.SAMIWriter()}
@@ -190,6 +191,37 @@ def explore(chk):
         want = [("en-US", [(t1 * 1000, "hello one"), (t2 * 1000, "hello two")]), (second, [(t1 * 1000, "other one"), (t2 * 1000, "other two")])]
         if got != want:
             chk.property_failure({"document": doc, "read": str(got), "spec": str(want)}, "sami reader: a paragraph is not filed under the language its class or lang attribute names")
+    # ---------------- SAMI -> SAMI: paragraphs styled through an id or a second class (their own style names no language)
+    for k in range(12 if chk.tier == "quick" else 200):
+        sub = chk.sub("sami_id_paragraphs") if hasattr(chk, "sub") else rng
+        extra = sub.choice(['ID=Source', 'ID=Source', 'id="Aside"'])
+        t1 = sub.randrange(1, 50) * 1000
+        doc = ('<SAMI><HEAD><STYLE TYPE="text/css"><!--\nP { font-family: Arial; }\n.ENCC { Name: English; lang: en-US; }\n.FRCC { Name: French; lang: fr-FR; }\n'
+               '#Source { color: yellow; }\n#Aside { font-style: italic; }\n--></STYLE></HEAD><BODY>\n'
+               '<SYNC start=%d><P Class=ENCC %s>one</P><P Class=FRCC>un</P></SYNC>\n<SYNC start=%d><P Class=ENCC>&nbsp;</P><P Class=FRCC>&nbsp;</P></SYNC>\n'
+               '<SYNC start=%d><P Class=ENCC>two</P><P Class=FRCC %s>deux</P></SYNC>\n<SYNC start=%d><P Class=ENCC>&nbsp;</P><P Class=FRCC>&nbsp;</P></SYNC>\n</BODY></SAMI>') % (
+                   t1, extra, t1 + 1000, t1 + 2000, extra, t1 + 3000)
+        chk.case(key=("sami_id_paragraph", doc), nontrivial=True); chk.count("sami_id_paragraphs")
+        try:
+            first = pycaption.SAMIReader().read(doc)
+            back = pycaption.SAMIReader().read(core.POOL.get(pycaption.SAMIWriter).write(first))
+            a, b_ = obs(first), obs(back)
+        except Exception as e:
+            chk.property_failure({"document": doc, "error": repr(e)[:300]}, "sami read / write / read raised on paragraphs styled through an id"); continue
+        if a != b_:
+            chk.property_failure({"document": doc, "read": str(a), "reread": str(b_)}, "sami -> sami: a cue styled through an id left its language")
+        if chk.driver_ok:
+            # the language rules of the stylesheet for a set WITH styles: what the styles alone give, then the model's loop
+            w_ = pycaption.SAMIWriter()
+            langs_ = first.get_languages()
+            only_styles = pycaption.CaptionSet({}, styles=dict(first.get_styles()), layout_info=first.layout_info)
+            sheet0 = w_._recreate_stylesheet(only_styles)[:-len("   -->")]
+            labels_ = ["1" if any(w_._recreate_p_lang(c_, l_, first) == l_ for c_ in first.get_captions(l_)) else "0" for l_ in langs_]
+            M = core.dec(core.run_driver(["sami.stylesheet\t%s\t%s\t%s" % (core.enc_list(langs_), ",".join(labels_), core.enc(sheet0))])[0])
+            I = w_._recreate_stylesheet(first)
+            chk.count("sami_stylesheets_with_styles")
+            if M != I:
+                chk.correspondence_failure({"document": doc, "impl": I, "model": M}, "SAMI stylesheet (language rules, set with styles): implementation and model differ")
     # ---------------- reader lang= and DFXP language fallback
     srt = "1\n00:00:01,000 --> 00:00:02,000\nhi\n"
     for l in ["de", "x-klingon", "en-US"]:
